@@ -9,6 +9,7 @@ import (
 	"crypto/x509/pkix"
 	"fmt"
 	"io"
+	"net"
 	"net/http"
 	"net/http/httptest"
 	"net/url"
@@ -17,11 +18,14 @@ import (
 	"sort"
 	"strconv"
 	"strings"
+	"sync"
 	"testing"
 	"time"
 
 	"connectrpc.com/conformance/internal"
 	conformancev1 "connectrpc.com/conformance/internal/gen/proto/go/connectrpc/conformance/v1"
+	"golang.org/x/net/http2"
+	"golang.org/x/net/http2/h2c"
 	"google.golang.org/protobuf/reflect/protoreflect"
 )
 
@@ -30,6 +34,7 @@ func init() {
 	verifKinds["c12.matrix"] = verifC12Matrix
 	verifKinds["c12.render"] = verifC12Render
 	verifKinds["c12.timeouts"] = verifC12Timeouts
+	verifKinds["c12.live"] = verifC12LiveKind
 }
 
 // ---- recording printer: keeps format and arguments, never the rendered text ----
@@ -531,4 +536,210 @@ func TestVerifConsts(t *testing.T) {
 	if err := os.WriteFile(out, []byte(sb.String()), 0o644); err != nil {
 		t.Fatal(err)
 	}
+}
+
+// ---- c12.live: the same record sent by a real client over a real listener ----
+// mode: 0 HTTP/1.1 plain, 1 HTTP/1.1 TLS, 2 HTTP/1.1 TLS + client certificate, 3 HTTP/2 TLS,
+// 4 HTTP/2 TLS + client certificate, 5 HTTP/2 plain (h2c, prior knowledge).
+// ProtoMajor, req.TLS, header canonicalisation, query parsing, body and trailers are then what
+// net/http delivers, not what the harness writes into an http.Request.
+
+type verifC12Live struct {
+	mu      sync.Mutex
+	handler http.Handler
+	plain   *httptest.Server
+	secure  *httptest.Server
+	clients [6]*http.Client
+}
+
+var (
+	verifC12LiveOnce sync.Once
+	verifC12LiveEnv  *verifC12Live
+	verifC12LiveErr  error
+)
+
+func verifC12LiveSetup() (*verifC12Live, error) {
+	verifC12LiveOnce.Do(func() {
+		env := &verifC12Live{}
+		dispatch := http.HandlerFunc(func(w http.ResponseWriter, r *http.Request) {
+			env.mu.Lock()
+			h := env.handler
+			env.mu.Unlock()
+			h.ServeHTTP(w, r)
+		})
+		serverCert, serverKey, err := internal.NewServerCert()
+		if err != nil {
+			verifC12LiveErr = err
+			return
+		}
+		clientCert, clientKey, err := internal.NewClientCert()
+		if err != nil {
+			verifC12LiveErr = err
+			return
+		}
+		pair, err := internal.ParseServerCert(serverCert, serverKey)
+		if err != nil {
+			verifC12LiveErr = err
+			return
+		}
+		serverTLS, err := internal.NewServerTLSConfig(pair, tls.VerifyClientCertIfGiven, clientCert)
+		if err != nil {
+			verifC12LiveErr = err
+			return
+		}
+		env.plain = httptest.NewServer(h2c.NewHandler(dispatch, &http2.Server{}))
+		env.secure = httptest.NewUnstartedServer(dispatch)
+		env.secure.TLS = serverTLS
+		env.secure.EnableHTTP2 = true
+		env.secure.StartTLS()
+		noCert, err := internal.NewClientTLSConfig(serverCert, nil, nil)
+		if err != nil {
+			verifC12LiveErr = err
+			return
+		}
+		withCert, err := internal.NewClientTLSConfig(serverCert, clientCert, clientKey)
+		if err != nil {
+			verifC12LiveErr = err
+			return
+		}
+		env.clients[0] = &http.Client{Transport: &http.Transport{DisableCompression: true}}
+		env.clients[1] = &http.Client{Transport: &http.Transport{DisableCompression: true, TLSClientConfig: noCert.Clone()}}
+		env.clients[2] = &http.Client{Transport: &http.Transport{DisableCompression: true, TLSClientConfig: withCert.Clone()}}
+		env.clients[3] = &http.Client{Transport: &http2.Transport{DisableCompression: true, TLSClientConfig: noCert.Clone()}}
+		env.clients[4] = &http.Client{Transport: &http2.Transport{DisableCompression: true, TLSClientConfig: withCert.Clone()}}
+		env.clients[5] = &http.Client{Transport: &http2.Transport{DisableCompression: true, AllowHTTP: true,
+			DialTLSContext: func(ctx context.Context, network, addr string, _ *tls.Config) (net.Conn, error) {
+				return (&net.Dialer{}).DialContext(ctx, network, addr)
+			}}}
+		verifC12LiveEnv = env
+	})
+	return verifC12LiveEnv, verifC12LiveErr
+}
+
+// mode request -> outcome (same shape as c12.seq's, one request on a fresh wrapped handler)
+func verifC12LiveKind(args []vsx) vsx {
+	env, err := verifC12LiveSetup()
+	if err != nil {
+		return vErr("live-setup")
+	}
+	mode := int(args[0].i)
+	if mode < 0 || mode > 5 {
+		return vL(vS("bad-case"))
+	}
+	r := verifC12Decode(args[1])
+	// records that this client cannot put on the wire as they are: not cases (the shrinker skips them)
+	chunked := r.method == http.MethodPost || r.method == http.MethodPut || r.method == http.MethodPatch
+	if r.method == "" || (r.trailers > 0 && r.bodyEmpty && !chunked) {
+		return vL(vS("bad-case"))
+	}
+	for i := range r.h {
+		for _, v := range r.h[i] {
+			if i < 15 && v != strings.TrimSpace(v) {
+				return vL(vS("bad-case"))
+			}
+		}
+	}
+	var called, hasConnect, hasGRPC bool
+	var timeout *time.Duration
+	var echo *int64
+	inner := http.HandlerFunc(func(_ http.ResponseWriter, req *http.Request) {
+		called = true
+		_, hasConnect = req.Header["Connect-Timeout-Ms"]
+		_, hasGRPC = req.Header["Grpc-Timeout"]
+		if t, ok := req.Context().Value(timeoutContextKey{}).(time.Duration); ok {
+			timeout = &t
+		}
+		echo = createRequestInfo(req.Context(), req.Header, nil, nil).TimeoutMs
+	})
+	pr := &verifC12Printer{}
+	done := make(chan struct{})
+	wrapped := referenceServerChecks(inner, pr)
+	env.mu.Lock()
+	env.handler = http.HandlerFunc(func(w http.ResponseWriter, req *http.Request) {
+		defer close(done)
+		wrapped.ServeHTTP(w, req)
+	})
+	env.mu.Unlock()
+
+	base := env.plain.URL
+	if mode >= 1 && mode <= 4 {
+		base = env.secure.URL
+	}
+	query := url.Values{}
+	if len(r.h[15]) > 0 {
+		query["encoding"] = r.h[15]
+	}
+	if len(r.h[16]) > 0 {
+		query["compression"] = r.h[16]
+	}
+	target := base + "/connectrpc.conformance.v1.ConformanceService/Unary"
+	if enc := query.Encode(); enc != "" {
+		target += "?" + enc
+	}
+	var body io.Reader
+	if !r.bodyEmpty || r.trailers > 0 {
+		content := "x"
+		if r.bodyEmpty {
+			content = ""
+		}
+		// not a *strings.Reader: unknown length, so HTTP/1.1 uses chunked encoding (needed for trailers)
+		body = io.MultiReader(strings.NewReader(content))
+	}
+	req, err := http.NewRequestWithContext(context.Background(), r.method, target, body)
+	if err != nil {
+		return vErr("live-request")
+	}
+	for i, n := range verifC12Names {
+		if len(r.h[i]) > 0 {
+			req.Header[n] = append([]string(nil), r.h[i]...)
+		}
+	}
+	if r.trailers > 0 {
+		req.Trailer = http.Header{}
+		for i := 0; i < r.trailers; i++ {
+			req.Trailer["X-Trailer-"+strconv.Itoa(i)] = []string{"v"}
+		}
+	}
+	resp, err := env.clients[mode].Do(req)
+	if err != nil {
+		// the client refused to send it (invalid header value, te other than trailers on HTTP/2, ...)
+		return vL(vS("bad-case"))
+	}
+	respBody, _ := io.ReadAll(resp.Body)
+	_ = resp.Body.Close()
+	select {
+	case <-done:
+	case <-time.After(10 * time.Second):
+		return vErr("live-timeout")
+	}
+	if !called {
+		wrote := strings.Contains(string(respBody), "invalid_argument") || resp.Header.Get("Grpc-Status") == "3" ||
+			resp.Trailer.Get("Grpc-Status") == "3" || strings.Contains(strings.ToLower(string(respBody)), "grpc-status: 3")
+		if wrote && len(pr.msgs) == 0 {
+			return vL(vS("rejected"))
+		}
+		return vL(vS("not-called"), vBool(wrote), vInt(len(pr.msgs)))
+	}
+	kinds := make([]vsx, len(pr.msgs))
+	prefix := ""
+	for i, m := range pr.msgs {
+		kinds[i] = verifC12Kind(m)
+		if i == 0 {
+			prefix = m.prefix
+		} else if m.prefix != prefix {
+			return vErr("mixed-prefix")
+		}
+	}
+	opt := func(p *int64) vsx {
+		if p == nil {
+			return vL()
+		}
+		return vL(vI(*p))
+	}
+	var tns *int64
+	if timeout != nil {
+		v := int64(*timeout)
+		tns = &v
+	}
+	return vL(vS(prefix), vL(kinds...), opt(tns), vBool(hasConnect), vBool(hasGRPC), opt(echo))
 }
